@@ -47,8 +47,6 @@ func init() {
 	})
 }
 
-var reSoyDocParamEOF = regexp.MustCompile(`@param\??[ \t]+$`)
-
 // lexKeyOf canonicalises a failing lexer input into a known-findings key.
 func lexKeyOf(c *Case, impl string) string {
 	f := strings.Split(c.Req, "\t")
@@ -58,10 +56,6 @@ func lexKeyOf(c *Case, impl string) string {
 	}
 	if len(f) == 3 {
 		in, _ := unhx(f[2])
-		if f[1] == "file" && strings.Contains(string(in), "/**") && reSoyDocParamEOF.Match(in) {
-			// `/** … @param<spaces><EOF>`: lexSoyDocParam does l.pos-- at eof and emits input[start:pos] with pos < start
-			return class + ":soydoc-param-then-spaces-at-eof"
-		}
 		return class + ":" + f[1] + ":" + quote(in)
 	}
 	return class + ":" + c.Req
